@@ -9,7 +9,7 @@ Inductive rop :=
 | QJoinThread (c : chan)
 | WakeupClose
 | JoinAllProcesses           (* popitem + join until the table is empty *)
-| FlagBroken | FailPending | ClearPending | FlagShutdown
+| FlagBroken | FailPending | FailPendingShut | ClearPending | FlagShutdown
 | KillWorkers                (* popitem + kill_process_tree for each *)
 | IfKillWorkers (ops : list rop)
 | JoinInternals | TerminateBroken | FlagExecutorShuttingDown.   (* calls to the three functions below *)
